@@ -14,6 +14,7 @@ package main
 import (
 	"bytes"
 	"fmt"
+	"os"
 	"runtime"
 	"strconv"
 	"strings"
@@ -27,6 +28,8 @@ import (
 )
 
 func init() { vh.Register("C10", genC10) }
+
+var onlyFamily string
 
 func main() { vh.Main() }
 
@@ -253,7 +256,7 @@ type gen struct {
 }
 
 func genC10(o *vcoq.Out, r *vcoq.Rand, tier string) error {
-	o.Header = "From SC Require Import Base.Prelude Bus.Bus Bus.Pipe Bus.PipeJudge Bus.Res Bus.ResJudge Bus.C10Judge."
+	o.Header = "From SC Require Import Base.Prelude Bus.Bus Bus.Pipe Bus.PipeJudge Bus.Res Bus.ResJudge Bus.ShapeJudge Bus.C10Judge."
 	o.CaseType = "c10case"
 	o.Judge = "judge"
 	o.Shard = 130
@@ -264,6 +267,23 @@ func genC10(o *vcoq.Out, r *vcoq.Rand, tier string) error {
 		nScript, nPipe, nFree = 30000, 18000, 2000
 	}
 	defer verifhook.Set(nil)
+	// C10_ONLY=shape|bus|pipe|res|race|free restricts the run to one family (debugging aid only;
+	// bin/check never sets it)
+	if only := os.Getenv("C10_ONLY"); only != "" {
+		if only != "bus" {
+			nScript = 0
+		}
+		if only != "pipe" {
+			nPipe = 0
+		}
+		if only != "free" {
+			nFree = 0
+		}
+		onlyFamily = only
+	}
+	if err := g.shapeCase(); err != nil {
+		return fmt.Errorf("source shape: %w", err)
+	}
 	// every case that runs into a bound costs seconds: after a few of them the rest of the run
 	// adds nothing (the failing inputs are already recorded)
 	const maxHard = 3
@@ -281,6 +301,9 @@ func genC10(o *vcoq.Out, r *vcoq.Rand, tier string) error {
 	if tier == "thorough" {
 		nRes = 9000
 	}
+	if onlyFamily != "" && onlyFamily != "res" {
+		nRes = 0
+	}
 	for i := 0; i < nRes && g.hard < 2*maxHard; i++ {
 		if err := g.resScript(i); err != nil {
 			return fmt.Errorf("res script %d: %w", i, err)
@@ -289,6 +312,9 @@ func genC10(o *vcoq.Out, r *vcoq.Rand, tier string) error {
 	nRace := 250
 	if tier == "thorough" {
 		nRace = 3000
+	}
+	if onlyFamily != "" && onlyFamily != "race" {
+		nRace = 0
 	}
 	for i := 0; i < nRace && g.hard < 3*maxHard; i++ {
 		if err := g.gcRace(i); err != nil {
